@@ -180,6 +180,12 @@ class StmtMixin:
         CLASSES.declare(node.name, tuple(bases) or ("object",))
 
     def bind(self, name, tv, frame):
+        lh = (self.unit.locals or {}).get(name) if self.unit is not None else None
+        if lh and tv.k == "val" and tv.hint is None and self.tag(tv) is None and "|" not in lh and not self.in_spec:
+            # the contract declares the type of this local: a value of another type would make the
+            # operations the code applies to it raise TypeError/AttributeError (A-WD)
+            self.require(self.type_fact(tv.r, lh), "TypeError", f"local {name} is a {lh}")
+            tv = TV("val", tv.r, lh)
         mi = self.frame_mi(frame)
         fnode = frame.func.node if frame.func is not None else None
         if fnode is not None and name in self.declared_global(fnode):
@@ -248,6 +254,17 @@ class StmtMixin:
 
     def st_Pass(self, s, frame):
         return
+
+    def ex_Yield(self, n, frame):
+        """`yield x` in a @contextmanager generator: control passes to the body of the caller's `with`
+        statement, which returns normally or raises INTO the generator at this point.  The contract
+        names that body as an external (`ghost={'yield_is': Ext(...)}`)."""
+        ext = (self.unit.ghost or {}).get("yield_is") if self.unit is not None else None
+        if ext is None:
+            raise Unsupported(f"yield at line {getattr(n, 'lineno', '?')} (no 'yield_is' external in the contract)")
+        v = self.eval(n.value, frame) if n.value is not None else tv_none()
+        self.ext_call(ext, None, [v], {}, n)
+        return tv_none()
 
     def st_Global(self, s, frame):
         return
@@ -553,7 +570,18 @@ class StmtMixin:
             raise sig
 
     def with_exit(self, cm, sig, s):
-        return
+        """leaving a with-block: if the contract names `<context expr>.__exit__` as an external (e.g. the
+        closing of a file, which may fail), it is called here - on normal and on exceptional exit"""
+        if self.unit is None or not s.items:
+            return
+        key = ast.unparse(s.items[0].context_expr) + ".__exit__"
+        spec = self.unit.calls.get(key)
+        if spec is None:
+            return
+        from .contracts import Ext as _Ext
+
+        if isinstance(spec, _Ext):
+            self.ext_call(spec, self.to_val(cm) if cm.k != "py" else None, [], {}, s)
 
     def st_While(self, s, frame):
         return self.exec_while(s, frame)
